@@ -39,6 +39,7 @@ def check(run):
         run.guard("C17.2.prefix-agreement", cfg, lambda: rule_prefix(run, F, cfg))
         run.guard("C17.3.exception-on-every-emission", cfg, lambda: rule_emission(run, F, cfg))
         run.guard("C17.5.key-extraction", cfg, lambda: rule_key(run, F, cfg))
+        run.guard("C17.5.key-extraction", cfg + "/css-ident", lambda: rule_css_ident(run, F, cfg))
         if cfg == "A":
             b = run.borrow("C08", only=r"cosmetic_filter_cache::CosmeticFilterCache\.(simple_class_rules|simple_id_rules|complex_class_rules|complex_id_rules|misc_generic_selectors)\b",
                            why="each generic-rule store must be serialized from, and restored into, itself")
@@ -67,6 +68,21 @@ def _store_of(f, t):
     if m and m.group(1) in STORES:
         return m.group(1)
     return None
+
+
+def rule_css_ident(run, F, cfg):
+    """css-validation builds store and return the canonical spelling of a selector: an identifier is written with
+    cssparser::serialize_identifier (which escapes a leading digit / `--`), not with the look-alike serialize_name
+    (`#1000-ros` is not a valid selector and names a different key than `#\\31 000-ros`)."""
+    fs = [g for n, g in F.fns.items() if re.search(r"css_validation::CssIdent as cssparser::ToCss>::to_css$", n)]
+    if not fs:
+        return      # not a css-validation configuration
+    g = fs[0]
+    run.touched(g)
+    calls = [strip_generics(t["callee"]) for b, t in g.calls() if strip_generics(t["callee"]).startswith("cssparser::")]
+    run.ob("C17.5.key-extraction", "identifiers-serialised-as-identifiers", calls == ["cssparser::serialize_identifier"],
+           f"<CssIdent as ToCss>::to_css writes the name with cssparser::serialize_identifier (calls: {calls})",
+           site=g.loc(0), config=cfg)
 
 
 def rule_partition(run, F, cfg):
